@@ -49,7 +49,7 @@ def relevant(case):
 
 
 def build_cases(tier, seed):
-    n = 800 if tier == "quick" else 40000
+    n = 800 if tier == "quick" else 20000
     cases = []
     for i in range(n):
         c = cc.Case()
